@@ -5,7 +5,9 @@ import (
 	"crypto/sha256"
 	"encoding/hex"
 	"encoding/json"
+	"errors"
 	"fmt"
+	"github.com/vektah/gqlparser/v2/gqlerror"
 	"math/rand"
 	"os"
 	"reflect"
@@ -156,47 +158,77 @@ func argMaps(ss ast.SelectionSet, vars map[string]interface{}, out *[]any) {
 
 // runSharedCall performs one call against the (shared) schema and returns the hash of everything it returns.
 func runSharedCall(schema *ast.Schema, c *sharedCall) (res string) {
+	res, _ = runSharedCallKeep(schema, c)
+	return res
+}
+
+// runSharedCallKeep also returns a function that renders the SAME returned
+// objects (error lists with their paths, coerced maps, argument maps) again:
+// called after later calls have run, it must give the same hash.
+func runSharedCallKeep(schema *ast.Schema, c *sharedCall) (res string, again func() string) {
+	again = func() string { return res }
 	defer func() {
 		if r := recover(); r != nil {
 			res = "panic:" + fmt.Sprint(r)
+			again = func() string { return res }
 		}
 	}()
 	switch c.Op {
 	case "format":
 		var buf bytes.Buffer
 		formatter.NewFormatter(&buf).FormatSchema(schema)
-		return hashOf(buf.String())
+		return hashOf(buf.String()), again
 	case "validate":
 		doc, err := parser.ParseQuery(&ast.Source{Input: c.Query, Name: "q.graphql"})
 		if err != nil {
-			return "parse-error"
+			return "parse-error", again
 		}
-		return hashOf(projErrs(validator.Validate(schema, doc)))
+		errs := validator.Validate(schema, doc)
+		return hashOf(projErrs(errs)), func() string { return hashOf(projErrs(errs)) }
 	case "coerce", "argmap":
 		doc, err := parser.ParseQuery(&ast.Source{Input: c.Query, Name: "q.graphql"})
 		if err != nil {
-			return "parse-error"
+			return "parse-error", again
 		}
 		if errs := validator.Validate(schema, doc); len(errs) > 0 {
-			return hashOf(projErrs(errs))
+			return hashOf(projErrs(errs)), func() string { return hashOf(projErrs(errs)) }
 		}
-		var out []any
+		var thunks []func() any
 		for _, op := range doc.Operations {
 			// each call owns its variables map
 			vars := deepCopyValue(c.Vars).(map[string]interface{})
 			coerced, err := validator.VariableValues(schema, op, vars)
 			if err != nil {
-				out = append(out, "coerce-error:"+err.Error())
+				e := err
+				thunks = append(thunks, func() any { return "coerce-error:" + e.Error() + pathOf(e) })
 				continue
 			}
-			out = append(out, fromGo(coerced))
+			thunks = append(thunks, func() any { return fromGo(coerced) })
 			if c.Op == "argmap" {
-				argMaps(op.SelectionSet, coerced, &out)
+				var maps []any
+				argMaps(op.SelectionSet, coerced, &maps)
+				thunks = append(thunks, func() any { return maps })
 			}
 		}
-		return hashOf(out)
+		render := func() string {
+			var out []any
+			for _, t := range thunks {
+				out = append(out, t())
+			}
+			return hashOf(out)
+		}
+		return render(), render
 	}
-	return "?"
+	return "?", again
+}
+
+// pathOf: the path of a coercion error, which its message may or may not repeat
+func pathOf(err error) string {
+	var ge *gqlerror.Error
+	if errors.As(err, &ge) && ge != nil {
+		return " path=" + ge.Path.String()
+	}
+	return ""
 }
 
 type sharedPlan struct {
@@ -303,11 +335,21 @@ func sharedWorker(args []string) int {
 			go func(g int) {
 				defer wg.Done()
 				r := rand.New(rand.NewSource(plan.Seed + int64(g)*7919))
+				type keptCall struct {
+					ci    int
+					again func() string
+				}
+				var kept []keptCall
 				for k := 0; k < 3*len(plan.Calls)/plan.Goroutines+3; k++ {
 					ci := r.Intn(len(plan.Calls))
 					emit(sharedEvent{E: "begin", G: g, Call: ci + 1})
-					res := runSharedCall(schema, &plan.Calls[ci])
+					res, again := runSharedCallKeep(schema, &plan.Calls[ci])
 					emit(sharedEvent{E: "end", G: g, Call: ci + 1, Result: res})
+					kept = append(kept, keptCall{ci, again})
+				}
+				// what this goroutine was given stays what it was while the others keep running
+				for _, k := range kept {
+					emit(sharedEvent{E: "recheck", G: g, Call: k.ci + 1, Result: k.again()})
 				}
 			}(g)
 		}
@@ -419,11 +461,16 @@ func checkC11(c *core.Ctx) {
 		shared, _ := gqlparser.LoadSchema(&ast.Source{Name: "schema.graphql", Input: hs.sdl})
 		snaps := []string{SchemaSnapshot(shared)}
 		var evs []sharedEvent
+		var agains []func() string
 		for ci := range calls {
 			evs = append(evs, sharedEvent{E: "begin", Call: ci + 1, Seq: int64(2*ci + 1)})
-			res := runSharedCall(shared, &calls[ci])
+			res, again := runSharedCallKeep(shared, &calls[ci])
+			agains = append(agains, again)
 			evs = append(evs, sharedEvent{E: "end", Call: ci + 1, Result: res, Seq: int64(2*ci + 2)})
 			snaps = append(snaps, SchemaSnapshot(shared))
+		}
+		for ci, again := range agains {
+			evs = append(evs, sharedEvent{E: "recheck", Call: ci + 1, Result: again(), Seq: int64(2*len(calls) + ci + 1)})
 		}
 		addCase(fmt.Sprintf("history of the %d hand-written documents on schema %q", len(calls), clip(hs.sdl, 200)), calls, evs, snaps, 0)
 		plan := sharedPlan{SDL: hs.sdl, Calls: calls, Goroutines: 4, Seed: c.Seed*1000 + 4}
@@ -512,11 +559,16 @@ func checkC11(c *core.Ctx) {
 			shared, _ := gqlparser.LoadSchema(&ast.Source{Name: "schema.graphql", Input: sdl})
 			snaps := []string{SchemaSnapshot(shared)}
 			var evs []sharedEvent
+			var agains []func() string
 			for ci := range calls {
 				evs = append(evs, sharedEvent{E: "begin", Call: ci + 1, Seq: int64(2*ci + 1)})
-				res := runSharedCall(shared, &calls[ci])
+				res, again := runSharedCallKeep(shared, &calls[ci])
+				agains = append(agains, again)
 				evs = append(evs, sharedEvent{E: "end", Call: ci + 1, Result: res, Seq: int64(2*ci + 2)})
 				snaps = append(snaps, SchemaSnapshot(shared))
+			}
+			for ci, again := range agains {
+				evs = append(evs, sharedEvent{E: "recheck", Call: ci + 1, Result: again(), Seq: int64(2*len(calls) + ci + 1)})
 			}
 			addCase(fmt.Sprintf("history of %d calls on schema %q; calls: %s", len(calls), clip(sdl, 200), describeCalls(calls)), calls, evs, snaps, 0)
 			if si == 0 && h == 0 {
@@ -656,9 +708,44 @@ func varsFor(doc []GT, schema *ast.Schema, r *rand.Rand) map[string]interface{} 
 			var t *ast.Type
 			t = gtToType(k.K[1])
 			vars[k.K[0].V] = goValueFor(t, schema, r, 2)
+			if r.Intn(4) == 0 {
+				// a defect somewhere inside the value: the coercion error carries a path
+				vars[k.K[0].V] = spoilValue(vars[k.K[0].V], r)
+			}
 		}
 	}
 	return vars
+}
+
+// spoilValue replaces one leaf of a JSON-like value by a value of the wrong kind.
+func spoilValue(v interface{}, r *rand.Rand) interface{} {
+	switch x := v.(type) {
+	case []interface{}:
+		if len(x) == 0 {
+			return []interface{}{map[string]interface{}{"unexpected": true}}
+		}
+		i := r.Intn(len(x))
+		x[i] = spoilValue(x[i], r)
+		return x
+	case map[string]interface{}:
+		if len(x) == 0 {
+			return "not an object"
+		}
+		keys := make([]string, 0, len(x))
+		for k := range x {
+			keys = append(keys, k)
+		}
+		sort.Strings(keys)
+		k := keys[r.Intn(len(keys))]
+		x[k] = spoilValue(x[k], r)
+		return x
+	case string:
+		return map[string]interface{}{"not": "a string"}
+	case nil:
+		return []interface{}{[]interface{}{[]interface{}{"deep"}}}
+	default:
+		return "wrong kind"
+	}
 }
 
 func gtToType(g GT) *ast.Type {
